@@ -67,3 +67,9 @@ VARIANTS += [
     V("zero-shortcut-by-half-cell", BI, "        if self._round(ta) == self._round(tb):", "        if self._round(ta) == self._round(tb) or tb - ta < 0.5 * self._tol:", rule="R03.2"),
     V("twin-zero-shortcut-temporaries", BI, "        if self._round(ta) == self._round(tb):", "        ra = self._round(ta)\n        rb = self._round(tb)\n        if rb == ra:", expect="silent"),
 ]
+
+VARIANTS += [
+    # positive fixture of R03.13 (Chen over the triples of seeded random histories)
+    V("random-histories-right-child-H-sign", BI, "                    out_H = first_coeff ** 2 * H - b * X1 - c * left_diff * X2\n",
+      "                    out_H = first_coeff ** 2 * H + b * X1 - c * left_diff * X2\n", rule="R03.13"),
+]
